@@ -265,7 +265,7 @@ def run(rep, tier_, rng):
     run_kinds(rep, K, tier_, rng, n_quick=int(os.environ.get("VERIF_B3_N", 44)), n_thorough=180, precs_quick=PRECS_QUICK,
               precs_thorough=PRECS_THOROUGH, assumptions=ASSUMPTIONS, rule=RULE, not_decided=NOT_DECIDED,
               params={"sentence_timeout": 100 if tier_ == "quick" else 400, "single_timeout": 100 if tier_ == "quick" else 400,
-                      "batch": 5, "ladder": [1]}, budget_quick=105)
+                      "batch": 5, "ladder": [1]}, budget_quick=95)
 
 
 def replay(rep, path):
